@@ -137,8 +137,17 @@ Section Reason.
                (* the right operand runs when the left one failed, possibly half-way, but is typed in the
                   state after the whole left operand *)
                if effectful a then 129 else if new_vars s1 (fst (ti b s1)) then 128 else reason b s1
-           | OAnd => if new_vars s1 (fst (ti b s1)) then 128 else reason b s1
-           | ODiv => if effectful b then 124 else reason b s1
+           | OAnd =>
+               (* a constant-true left operand: the right operand's kind is not checked against
+                  null-or-boolean although `true && 5` fails *)
+               if ovalue_eqb (resolve_constant binop a s) (Some (VBool true))
+                  && negb (is_superset k_null_or_bool (td_kind (snd (ti b s1))))
+               then 130
+               else if new_vars s1 (fst (ti b s1)) then 128 else reason b s1
+           | ODiv =>
+               (* the result starts from a fresh TypeDef::float(): the left operand's fallibility is lost *)
+               if td_fal (snd (ti a s)) && negb (td_fal (snd (ti (EOp ODiv a b) s))) then 131
+               else if effectful b then 124 else reason b s1
            | OMerge => first_nz (reason b s1) 112
            | _ => reason b s1
            end)
